@@ -750,6 +750,46 @@ func (c *FnCtx) evalCall(env *SpecEnv, e *Expr) (Val, error) {
 		}
 		bx, _ := c.declareBox(args[0].T)
 		return Val{T: types.Universe.Lookup("any").Type(), K: KIface, S: "(" + bx + " " + args[0].S + ")"}, nil
+	case "typed":
+		// typed(x): x (a pointer or a map) is nil or refers to an object of its static type
+		if err := evalArgs(); err != nil {
+			return Val{}, err
+		}
+		if len(args) != 1 || args[0].K != KRef {
+			return Val{}, fmt.Errorf("typed(x) needs a pointer or a map")
+		}
+		var tid string
+		if pt, ok := args[0].T.Underlying().(*types.Pointer); ok {
+			tid = c.refTypeID(pt.Elem())
+		} else if _, ok := args[0].T.Underlying().(*types.Map); ok {
+			tid = c.refTypeID(args[0].T)
+		}
+		if tid == "" {
+			return Val{}, fmt.Errorf("typed(x): no object type for %s", args[0].T)
+		}
+		return boolVal(or(eq(args[0].S, "0"), eq("(rtype "+args[0].S+")", tid))), nil
+	case "mk":
+		// mk(T, f1, f2, ...): the value of struct type T whose fields (in declaration order) are f1, f2, ...
+		if len(e.Args) < 2 {
+			return Val{}, fmt.Errorf("mk(T, fields...) needs a struct type and its field values")
+		}
+		t := c.eng.resolveType(env.pkg, e.Args[0].String())
+		if t == nil {
+			return Val{}, fmt.Errorf("mk: unknown type %s", e.Args[0])
+		}
+		stt, ok := t.Underlying().(*types.Struct)
+		if !ok || stt.NumFields() != len(e.Args)-1 {
+			return Val{}, fmt.Errorf("mk: %s is not a struct with %d fields", e.Args[0], len(e.Args)-1)
+		}
+		sv := Val{T: t, K: KStruct}
+		for i := 1; i < len(e.Args); i++ {
+			fv, err := c.eval(env, e.Args[i])
+			if err != nil {
+				return Val{}, err
+			}
+			sv.F = append(sv.F, retype(fv, stt.Field(i-1).Type()))
+		}
+		return sv, nil
 	case "unbox":
 		// unbox(v, T)
 		if len(e.Args) != 2 {
